@@ -13,6 +13,14 @@
 //!       `vm::Handlers` log every token that reaches the main loop with its `vm.trace`.
 //!       Compared with M driven by the same configuration schedule (`sch` request).
 //!
+//!   `vmc <k> (<kind> <x> <y>)*k <m> <text>*m`
+//!       a real `VM<StdLibState>` runs one line of settings (`\catcode x=y\relax` /
+//!       `\endlinechar=x\relax`, no blanks between them) and then the lines of `text`; the
+//!       configuration is constant from line 2 on, so the tokens the VM delivers for the lines
+//!       after the first are compared with the Lean SPEC (`Spec.specAll`, final category table,
+//!       `\endlinechar` v = character v for 0 <= v < 128, none otherwise) evaluated on `text`
+//!       alone: `Kind::ImplVsSpec` (the glue in streams.rs / codes.rs / endlinechar.rs).
+//!
 //! Items are encoded exactly as in `lean/Driver/C03.lean`.
 
 use std::collections::HashMap;
@@ -362,6 +370,125 @@ fn real_vm(src: &str) -> (Vec<(char, u8)>, Option<char>, Vec<i64>) {
     (table, eol, out)
 }
 
+#[derive(Clone, Debug)]
+struct VmcCase {
+    cmds: Vec<(i64, i64, i64)>,
+    text: String,
+}
+
+impl VmcCase {
+    fn dec(rest: &str) -> VmcCase {
+        let v = parse_i64s(rest);
+        let mut it = v.iter();
+        let k = *it.next().unwrap();
+        let mut cmds = vec![];
+        for _ in 0..k {
+            let kind = *it.next().unwrap();
+            let x = *it.next().unwrap();
+            let y = *it.next().unwrap();
+            cmds.push((kind, x, y));
+        }
+        VmcCase { cmds, text: dec_text(&mut it) }
+    }
+    fn enc(&self) -> String {
+        let mut v = vec![self.cmds.len() as i64];
+        for (kind, x, y) in &self.cmds {
+            v.extend([*kind, *x, *y]);
+        }
+        enc_text(&self.text, &mut v);
+        format!("vmc {}", join(&v))
+    }
+    fn script(&self) -> String {
+        let mut s = String::new();
+        for (kind, x, y) in &self.cmds {
+            s.push_str(&VmCase::cmd_text(*kind, *x, *y));
+        }
+        s.push('\n');
+        s.push_str(&self.text);
+        s
+    }
+}
+
+/// The items of lines >= 2, renumbered from 1, up to and including the first invalid
+/// character; `None` when the run did not get past line 1 in a way the comparison can use
+/// (invalid character in line 1, or an error that is not the lexer's).
+fn vmc_suffix(items: &[i64]) -> Option<Vec<i64>> {
+    let mut out = vec![];
+    for it in split_items(items) {
+        match it[0] {
+            0..=3 => {
+                let (val, pos) = item_parts(it);
+                if pos[0] < 2 {
+                    if it[0] == 3 {
+                        return None;
+                    }
+                    continue;
+                }
+                out.extend_from_slice(val);
+                out.push(pos[0] - 1);
+                out.extend_from_slice(&pos[1..]);
+                if it[0] == 3 {
+                    return Some(out);
+                }
+            }
+            9 => return None,
+            _ => out.extend_from_slice(it),
+        }
+    }
+    Some(out)
+}
+
+/// The specification's items up to and including the first invalid character (a fatal error
+/// for the VM).
+fn upto_invalid(items: &[i64]) -> Vec<i64> {
+    let mut out = vec![];
+    for it in split_items(items) {
+        out.extend_from_slice(it);
+        if it[0] == 3 {
+            break;
+        }
+    }
+    out
+}
+
+const VMC_EOL: &[i64] = &[-1, 0, 1, 13, 127, 128, 97, 94, 32, 37, 126, 255, 256, -2, 65];
+const VMC_CATS: &[i64] = &[0, 5, 7, 9, 10, 11, 12, 13, 14, 15, 3, 4, 6, 8];
+
+fn gen_vmc(r: &mut Rng) -> VmcCase {
+    let k = 1 + r.below(4) as usize;
+    let mut cmds = vec![];
+    for i in 0..k {
+        let last = i + 1 == k;
+        if r.chance(2, 5) {
+            cmds.push((1, *r.pick(VMC_EOL), 0));
+        } else {
+            // characters the commands themselves (and the end of line 1) do not need;
+            // space, escape, letters, digits and CR only in the last command
+            let mut chars: Vec<i64> = vec![0, 127, 1, 94, 126, 37, 77, 90, 233, 9, 63, 117, 66, 128];
+            if last {
+                chars.extend([32, 92, 97, 53, 13, 65]);
+            }
+            cmds.push((0, *r.pick(&chars), *r.pick(VMC_CATS)));
+        }
+    }
+    const CH: &[char] = &[
+        'A', 'B', 'C', 'A', ' ', ' ', '\\', '^', '^', '\r', '\0', '\x7f', '\x01', 'é', 'a', '5', '%', '~', 'M', 'Z', 'u',
+        '?', '@', '\t', '\u{80}',
+    ];
+    let n_lines = 2 + r.below(4) as usize;
+    let mut text = String::new();
+    for i in 0..n_lines {
+        let n = r.below(7) as usize;
+        for _ in 0..n {
+            text.push(*r.pick(CH));
+        }
+        if i + 1 < n_lines || r.chance(1, 2) {
+            text.push('\n');
+        }
+    }
+    VmcCase { cmds, text }
+}
+
 // ------------------------------------------------------------------------------------------
 // generators
 // ------------------------------------------------------------------------------------------
@@ -644,7 +771,8 @@ impl Property for C03 {
         "lex: every string over the 14-character alphabet {\\ { ^ space LF CR NUL DEL é a 5 % ~ M} up to length 3 (quick) / 4 (thorough: every table for the strings with a doubled ^ a 5 M é CR or blank, the 6 plain tables for all; plus length 5 under the plain table with endlinechar CR/none) \
          x 44 category tables (plain with 6 default categories + 38 single changes of ^, space, CR, a, 5, M, é, DEL, NUL, \\, %) x endlinechar in {none, CR, a, ^, space}, report_end_of_line on (off for every 4th); \
          then random texts up to 48 characters (expanded codes, hex pairs, non-ASCII, blank lines, trailing blanks, no final newline) with random tables (plain / 25% changed / all random) and random endlinechar; \
-         vm: real VM<StdLibState> running text with \\catcode and \\endlinechar changes mid-file. \
+         vm: real VM<StdLibState> running text with \\catcode and \\endlinechar changes mid-file (vs the model); \
+         vmc: one line of \\catcode/\\endlinechar settings (endlinechar in {-2,-1,0,1,13,32,37,65,94,97,126,127,128,255,256} x every category for that character, NUL/DEL/^^A/... with 14 categories) then 2-5 plain lines, the VM's tokens of the lines after the first compared with the Lean spec under the final configuration. \
          Non-trivial = the source has at least 2 characters; distinct = distinct case string."
             .into()
     }
@@ -684,6 +812,11 @@ impl Property for C03 {
                 v.push(lex_case(true, &plain(eol), s));
             }
         }
+        // glue: \catcode0=11 \endlinechar=0 A / B / C (NUL as a letter is appended to every line)
+        v.push(VmcCase { cmds: vec![(0, 0, 11), (1, 0, 0)], text: "A\nB\nC".into() }.enc());
+        v.push(VmcCase { cmds: vec![(1, 127, 0), (0, 127, 11)], text: "A\nB\nC\n".into() }.enc());
+        v.push(VmcCase { cmds: vec![(1, 128, 0)], text: "A\nB".into() }.enc());
+        v.push(VmcCase { cmds: vec![(1, 1, 0), (0, 1, 13)], text: "A\nB".into() }.enc());
         // the lexer.rs module documentation example, through a VM
         v.push(
             VmCase { text0: "A".into(), cmds: vec![(1, 'X' as i64, 0, "".into()), (0, 94, 12, "B^^M\nC".into())] }.enc(),
@@ -731,6 +864,22 @@ impl Property for C03 {
             v.push(lex_case(r.chance(3, 4), &t, &s));
         }
         // vm
+        // vmc: settings on line 1, constant configuration afterwards (compared with S).
+        // Every boundary \endlinechar with every category for that character, fixed text.
+        for &e in VMC_EOL {
+            v.push(VmcCase { cmds: vec![(1, e, 0)], text: "A\nB \n\nC".into() }.enc());
+            if (0..128).contains(&e) && ![32, 92, 97, 13].contains(&e) || e == 128 {
+                for &c in VMC_CATS {
+                    v.push(VmcCase { cmds: vec![(0, e, c), (1, e, 0)], text: "A\nB\nC".into() }.enc());
+                    v.push(VmcCase { cmds: vec![(1, e, 0), (0, e, c)], text: "A \n\nB^^@^^?\nC".into() }.enc());
+                }
+            }
+        }
+        let n_vmc = if ctx.thorough { 60_000 } else { 8_000 };
+        let mut r = rng.fork();
+        for _ in 0..n_vmc {
+            v.push(gen_vmc(&mut r).enc());
+        }
         let n_vm = if ctx.thorough { 30_000 } else { 4_000 };
         let mut r = rng.fork();
         for _ in 0..n_vm {
@@ -785,6 +934,64 @@ impl Property for C03 {
                                 format!("lex vs model: {}", diff_sig(&m, &i)),
                                 format!("src {src:?}\nmodel: {}\ncode:  {}", join(&m), join(&i)),
                             );
+                        }
+                    }
+                }
+                out
+            }
+            "vmc" => {
+                let c = VmcCase::dec(rest);
+                let src = c.script();
+                out.nontrivial = c.text.chars().count() >= 2;
+                match caught(|| real_vm(&src)) {
+                    Err(p) => out.fail(Kind::ImplPanic, "vmc", format!("panic {}", strip_msg(&p)), format!("src {src:?}: VM panicked: {p}")),
+                    Ok((table, eol, i)) => {
+                        // the configuration from line 2 on, as the property reads the settings
+                        let mut cur = Table { eol, dflt: 12, pairs: table };
+                        for (kind, x, y) in &c.cmds {
+                            if *kind == 0 {
+                                let ch = char::from_u32(*x as u32).unwrap();
+                                match cur.pairs.iter_mut().find(|p| p.0 == ch) {
+                                    Some(p) => p.1 = *y as u8,
+                                    None => cur.pairs.insert(0, (ch, *y as u8)),
+                                }
+                            } else {
+                                cur.eol = if (0..128).contains(x) { char::from_u32(*x as u32) } else { None };
+                            }
+                        }
+                        out.tag(format!(
+                            "vmc:endlinechar={}",
+                            c.cmds.iter().rev().find(|c| c.0 == 1).map(|c| c.1.clamp(-2, 129).to_string()).unwrap_or("unchanged".into())
+                        ));
+                        match vmc_suffix(&i) {
+                            None => out.tag("vmc:stopped-in-line-1"),
+                            Some(i_suf) => {
+                                let reply = drv.ask(&lex_case(false, &cur, &c.text));
+                                let (_, s) = reply.split_once('|').unwrap_or_else(|| panic!("driver reply malformed: {reply}"));
+                                let s = upto_invalid(&parse_i64s(s.trim()));
+                                tags_of(&mut out, &c.text, cur.eol, &s);
+                                out.tag("vmc:compared-with-spec");
+                                if i_suf != s {
+                                    let what = if c.cmds.iter().any(|c| c.0 == 1) && c.cmds.iter().any(|c| c.0 == 0) {
+                                        "\\endlinechar/\\catcode"
+                                    } else if c.cmds.iter().any(|c| c.0 == 1) {
+                                        "\\endlinechar"
+                                    } else {
+                                        "\\catcode"
+                                    };
+                                    out.fail(
+                                        Kind::ImplVsSpec,
+                                        "vmc",
+                                        format!("vm glue: lexing after {what} settings differs from TeX: {}", diff_sig(&s, &i_suf)),
+                                        format!(
+                                            "program {src:?}\nlines after the first, endlinechar {:?}\nwant (TeX): {}\ngot (VM):   {}",
+                                            cur.eol,
+                                            join(&s),
+                                            join(&i_suf)
+                                        ),
+                                    );
+                                }
+                            }
                         }
                     }
                 }
@@ -871,6 +1078,23 @@ impl Property for C03 {
                 let used: Vec<(char, u8)> = cfg.pairs.iter().copied().filter(|p| src.contains(&p.0)).collect();
                 if used.len() < cfg.pairs.len() {
                     c.push(mk(&src, &Table { pairs: used, ..cfg.clone() }));
+                }
+            }
+            "vmc" => {
+                let vc = VmcCase::dec(rest);
+                for i in 0..vc.cmds.len() {
+                    let mut d = vc.clone();
+                    d.cmds.remove(i);
+                    c.push(d.enc());
+                }
+                let cs: Vec<char> = vc.text.chars().collect();
+                if cs.len() > 1 {
+                    c.push(VmcCase { text: cs[..cs.len() / 2].iter().collect(), ..vc.clone() }.enc());
+                    c.push(VmcCase { text: cs[cs.len() / 2..].iter().collect(), ..vc.clone() }.enc());
+                }
+                for i in 0..cs.len() {
+                    let t: String = cs.iter().enumerate().filter(|(j, _)| *j != i).map(|(_, c)| *c).collect();
+                    c.push(VmcCase { text: t, ..vc.clone() }.enc());
                 }
             }
             "vm" => {
